@@ -142,8 +142,9 @@ Theorem C05_nackfrag_never_resends_the_requested_fragment :
       (n = div_ceil (blen p) (w_f w) -> ws = []).
 Proof. exact nackfrag_never_resends_requested. Qed.
 
-(* outside the classes C05-fragsize-zero-div (no hand-made fragments: op_ok) and
-   C05-nackfrag-bitmap-overflow (every sample has at most 256 fragments: small_op) no history panics *)
+(* outside the classes C05-fragsize-zero-div, C05-nackfrag-none-missing-panic (no hand-made fragments,
+   no fragments addressed to another reader: op_ok) and C05-nackfrag-bitmap-overflow (every sample has
+   at most 256 fragments: small_op) no history panics *)
 Theorem C05_no_panic_outside_known_classes :
   forall rel nreaders f ops,
     0 < f < 65536 -> Forall op_ok ops -> Forall (small_op f) ops ->
@@ -187,6 +188,11 @@ Theorem C05_witness_mixed_readerid_truncates :
     Ok (s, obs) /\ r_changes (s_r s) = [(1, firstn 16 p29)] /\ firstn 16 p29 <> p29.
 Proof. exact witness_mixed_readerid. Qed.
 
+Theorem C05_witness_none_missing_panics :
+  run (s_init true 2 8) [OWrite [1;2;3;4;5;6;7;8;9]; ODeliver 1 1 1; ODeliver 1 1 2; ODeliver 1 0 1; ODeliver 1 0 2;
+                         OHb 1 1 1 false] = Panic 4.
+Proof. exact witness_none_missing_panic. Qed.
+
 (* non-vacuity: a concrete reordered, duplicated, interleaved schedule of two samples meets the
    hypotheses of C05_delivered_changes_are_byte_identical and delivers both *)
 Example C05_nonvacuous :
@@ -221,3 +227,4 @@ Print Assumptions C05_witness_nackfrag_off_by_one.
 Print Assumptions C05_witness_fragment_size_zero_panics.
 Print Assumptions C05_witness_nackfrag_bitmap_overflow.
 Print Assumptions C05_witness_mixed_readerid_truncates.
+Print Assumptions C05_witness_none_missing_panics.
